@@ -108,3 +108,28 @@ Proof.
   vm_compute; tauto.
 Qed.
 Print Assumptions C20_generated_override_keys_are_read_where_modelled.
+
+(* ---- the effective debug flag computed by SimpleRequest.__init__
+   (generated from the whole body of __init__ in the current request.py by
+   harness/py2v_reqfacts.py -> gen/ReqFactsGen.v, over lib/Py.v +
+   lib/PyDigest.v + lib/PyReqFacts.v; the result is the value stored in
+   self.__debug) is the model's [effective_debug]: os.environ is consulted
+   exactly when 'uwsgi.version' is in the request environ or 'poor.Version'
+   in os.environ, the variable is poor_Debug, an absent or empty value
+   leaves app.debug, anything else is compared with 'on' after lower().
+   [ei] / [oi] are the items of the request environ / of os.environ (any
+   dictionaries), poor_Debug values are str, REQUEST_STARTTIME is present
+   (the constructor reads it afterwards), app.debug is a bool. *)
+Require Import PW.lib.Py PW.lib.PyDigest PW.lib.PyReqFacts PW.gen.ReqFactsGen
+        PW.proofs.ReqFactsGenEq.
+
+Theorem C20_generated_effective_debug_is_model :
+  forall ei oi edbg odbg st appv b clockv,
+    items_get (PStr k_poor_debug) ei = option_map PStr edbg ->
+    items_get (PStr k_poor_debug) oi = option_map PStr odbg ->
+    items_get (PStr k_starttime) ei = Some st ->
+    gen_init_debug (PDict ei) appv (PBool b) (PDict oi) clockv
+    = Py.Ok (PBool (PW.model.Debug.effective_debug
+                      (denv_of ei oi edbg odbg) b)).
+Proof. exact gen_init_debug_eq. Qed.
+Print Assumptions C20_generated_effective_debug_is_model.
